@@ -27,7 +27,10 @@ CHECKS = {
         "C08_transparent / C08_every_answer (with invalidation on declaration each answer equals f of the declarations made "
         "so far) and C08_refuted_without_invalidation. Tied to the code by (A) an AST-derived obligation that every lru_cache'd "
         "function of conversions.py is cleared by both equate and translate, and (B) interleaved histories in one process vs the "
-        "same declarations + the query in fresh processes, re-checked in the kernel through the memo machine. C08_refuted_factor_order: the planner itself is not a function of the declarations alone -- it walks the factors of interned operands in the order of their first construction; scenario 'operand-order' (fresh process per query) reproduces this on the implementation and is the recorded finding history-dependent:factor-order, classified only when the planner model fed each process's exported factor order reproduces each outcome.",
+        "same declarations + the query in fresh processes, re-checked in the kernel through the memo machine. C08_refuted_factor_order: the planner itself is not a function of the declarations alone -- it walks the factors of interned operands in the order of their first construction; scenario 'operand-order' (fresh process per query) reproduces this on the implementation and is the recorded finding history-dependent:factor-order, classified only when the planner model fed each process's exported factor order reproduces each outcome. "
+        "C08_declaration_in_progress (Model/Memo2.v: two memo tables in series, a declaration as separate source lines with whole queries of other threads between them): with the memoised "
+        "paths forgotten before the plans, every declaration leaves the state of a fresh process; C08_refuted_plans_forgotten_first is the order the library had before the repair e2a1d4e. "
+        "Per run Gen_declshape reads equate/translate/_forget_cached_conversions line by line, and the declaring thread is paused before each of its source lines while a second thread queries.",
    note=TB + "Assumes the planner has no hidden state besides _ratios/_offsets and the two lru caches (validated by the "
         "fresh-process differential). Axioms: none.",
    tech="Rocq proof: cache-coherence invariant by induction over histories (parametric in the planner)", ref="DESIGN.md §4 C08"),
@@ -93,7 +96,7 @@ CHECKS = {
         "C20_unlocked_refuted exhibits the race without the lock. Tied to the code by an AST-derived obligation that each "
         "__new__ performs check-then-insert inside one `with _interning:` region, and by executing every preemption-bounded "
         "2-thread schedule and random 3-thread schedules on the real code with a sys.settrace scheduler. "
-        "Theorem C20_program_safe: each __new__ is translated at every run into an instruction program (Model/NewProg.v); every "
+        "Theorem C20_program_safe: each interning __new__ (Dimension, Prefix, Unit, Logarithm, LogarithmicUnit) is translated at every run into an instruction program (Model/NewProg.v); every "
         "program accepted by the proved abstract interpretation prog_safe gives one object per key to any number of threads under "
         "every schedule; the three regenerated programs are accepted (Gen_newprog) and every observed line schedule of the direct "
         "constructor calls replays on the translated program in the kernel (same control flow, same sharing of objects).",
